@@ -93,8 +93,12 @@ def sources_hash():
 
 def regenerate():
     """Regenerate the model files that are translated from /repo on every run."""
-    from harness import gen_layouts
-    return gen_layouts.regenerate()
+    from harness import gen_layouts, py2lean
+    a = gen_layouts.regenerate()
+    # the self-contained pure parts of the Python source -> Gen/Py*.lean (notes/Tie.md); a construct outside
+    # the translated subset yields a file that does not compile (a broken tie), never stale output
+    b = py2lean.regenerate()
+    return a or b
 
 
 def build():
@@ -384,6 +388,15 @@ class Context(object):
                 # a sub-space that was enumerated completely (described), inside a run that is not exhaustive as a whole
                 cov['exhaustive'] = False
                 cov['exhaustive_part'] = self.exhaustive
+        src = regenerated_from_source(self.prop)
+        if src is not None:
+            cov['regenerated_from_source'] = src['items']
+            cov['trusted_base'].append(
+                'translator harness/py2lean.py (restricted Python -> Lean, construct table in notes/Tie.md) and its primitives '
+                'lean/BufrModel/Gen/PyPrelude.lean: the definitions listed under regenerated_from_source are re-translated from the '
+                'Python source on every check and proved equal to the model definitions by the theorems named *_src_*')
+            if src['errors']:
+                cov['regeneration_errors'] = src['errors']
         ev = {
             'property_id': self.prop,
             'tier': self.tier,
@@ -397,6 +410,24 @@ class Context(object):
         os.makedirs(os.path.join(VERIF, 'evidence'), exist_ok=True)
         with open(os.path.join(VERIF, 'evidence', self.prop + '.json'), 'w') as f:
             json.dump(ev, f, indent=1, default=repr)
+
+
+def regenerated_from_source(prop):
+    """The Python definitions that are re-translated to Lean on every run (harness/py2lean.py) and on which the
+    `src` theorems of this property rest: 'file:name:first-last line:git blob of the file'.  None when the
+    property has no such theorems."""
+    try:
+        from harness import py2lean
+        mods = set(closure_modules(prop))
+        man = py2lean.manifest()
+        items = ['%s:%s:%d-%d:%s' % (it['file'], it['name'], it['lines'][0], it['lines'][1], it['blob'])
+                 for it in man['items'] if it['gen_module'] in mods]
+        errors = [e for e in man['errors'] if e['gen_module'] in mods]
+        if not items and not errors:
+            return None
+        return {'items': items, 'errors': errors}
+    except Exception as e:  # pragma: no cover
+        return {'items': [], 'errors': [{'what': repr(e)}]}
 
 
 def load_known_findings():
